@@ -253,6 +253,7 @@ func GvcBase[T any](s []T) *T              { panic("gvc") }
 func GvcElemsFrame[T any](s []T) bool      { panic("gvc") }
 func GvcSameElems[T any](s []T) bool       { panic("gvc") }
 func GvcTypeName(x any) string             { panic("gvc") }
+func GvcDynTypeIs(x any, name string) bool { panic("gvc") }
 
 type GvcArr[K comparable, V any] struct{ _ [0]func(K) V }
 
@@ -708,7 +709,8 @@ func loopStmts(fd *ast.FuncDecl) []ast.Stmt {
 func (p *Program) resolveContracts() error {
 	p.ByFunc = map[*ssa.Function]*Contract{}
 	p.RecFuncs = map[*ssa.Function]bool{}
-	for path, cf := range p.Files {
+	for _, path := range sortedKeys(p.Files) {
+		cf := p.Files[path]
 		sp := p.SSAPkgs[path]
 		if sp == nil {
 			return fmt.Errorf("no SSA package for %s", path)
@@ -726,9 +728,10 @@ func (p *Program) resolveContracts() error {
 				if err != nil {
 					return fmt.Errorf("%s:%d: %v", c.File, c.Line, err)
 				}
-				if _, dup := p.Externs[full]; !dup {
-					p.Externs[full] = c
+				if prev, dup := p.Externs[full]; dup {
+					return fmt.Errorf("%s:%d: assumed contract for %s is already given at %s:%d", c.File, c.Line, full, prev.File, prev.Line)
 				}
+				p.Externs[full] = c
 				continue
 			}
 			fn := p.lookupFunc(sp, c)
@@ -807,6 +810,10 @@ func (p *Program) externFullName(sp *ssa.Package, c *Contract) (string, error) {
 	}
 	if strings.HasPrefix(c.RecvType, "*") {
 		T = types.NewPointer(T)
+	}
+	if _, isSig := T.Underlying().(*types.Signature); isSig && c.FuncName == "call" {
+		// contract of calls through a named function type
+		return "functype:" + types.TypeString(T, nil), nil
 	}
 	obj, _, _ := types.LookupFieldOrMethod(T, true, sp.Pkg, c.FuncName)
 	fn, ok := obj.(*types.Func)
